@@ -215,4 +215,517 @@ theorem snapV_mono (refs : List Int) (md x y : Int) (hxy : x ≤ y) : snapV refs
   · simp only [tabs_int] at a1 a2
     split at a1 <;> split at a1 <;> split at a2 <;> split at a2 <;> omega
 
+/-! ## dejitter on interval tiers -/
+
+theorem mapM_ok {β γ : Type} (f : β → Except Err γ) (g : β → γ) (l : List β) (h : ∀ a ∈ l, f a = .ok (g a)) :
+    l.mapM f = .ok (l.map g) := by
+  induction l with
+  | nil => rfl
+  | cons a l ih =>
+    rw [List.mapM_cons, h a (by simp), ih (fun b hb => h b (List.mem_cons_of_mem _ hb))]
+    rfl
+
+/-- both boundaries of one interval snapped, label kept -/
+def snapIv (refs : List Int) (md : Int) (iv : Iv Int) : Iv Int :=
+  ⟨snapV refs md iv.s, snapV refs md iv.e, iv.l⟩
+
+/-- `dejitter` is the constructor applied to the pointwise snapped entries -/
+theorem dejitter_unfold (t : ITier Int) (refs : List Int) (hne : refs ≠ []) (md : Int) :
+    t.dejitter refs md = mkITier t.name (t.es.map (snapIv refs md)) (some t.lo) (some t.hi) := by
+  have he : refs.isEmpty = false := by cases refs <;> simp_all
+  have hm : (t.es.mapM fun iv => do
+      let s ← snap refs md iv.s
+      let e ← snap refs md iv.e
+      pure (⟨s, e, iv.l⟩ : Iv Int)) = .ok (t.es.map (snapIv refs md)) := by
+    apply mapM_ok
+    intro iv _
+    rw [snap_eq refs hne, snap_eq refs hne]; rfl
+  unfold ITier.dejitter
+  rw [hm, he]
+  rfl
+
+/-- **empty reference**: `ArgumentError` -/
+theorem dejitter_empty_ref (t : ITier Int) (md : Int) : t.dejitter [] md = .error .ArgumentError := rfl
+theorem pdejitter_empty_ref (t : PTier Int) (md : Int) : t.dejitter [] md = .error .ArgumentError := rfl
+
+theorem snapIv_label (refs : List Int) (md : Int) (es : List (Iv Int)) :
+    (es.map (snapIv refs md)).map (·.l) = es.map (·.l) := by
+  simp [snapIv, Function.comp_def]
+
+/-- the snapped image of a time-ordered list is time-ordered (boundaries never cross) -/
+theorem snapIv_disj (refs : List Int) (md : Int) (es : List (Iv Int)) (hd : Disj es) :
+    Disj (es.map (snapIv refs md)) := by
+  unfold Disj at *
+  rw [List.pairwise_map]
+  exact hd.imp (fun h => snapV_mono refs md _ _ h)
+
+theorem snapIv_le (refs : List Int) (md : Int) (iv : Iv Int) (h : iv.s < iv.e) :
+    (snapIv refs md iv).s ≤ (snapIv refs md iv).e := snapV_mono refs md _ _ (by omega)
+
+theorem snapIv_stripped (refs : List Int) (md : Int) (es : List (Iv Int)) (hs : Stripped es) :
+    Stripped (es.map (snapIv refs md)) := by
+  intro o ho
+  obtain ⟨iv, hiv, rfl⟩ := List.mem_map.1 ho
+  exact hs iv hiv
+
+/-- the constructor rejects a list with a non-positive interval, wherever sorting puts it -/
+theorem mkITier_error_of_not_pos (name : String) (es : List (Iv Int)) (lo hi : Int) (hs : Stripped es)
+    (hp : ¬ Pos es) : mkITier name es (some lo) (some hi) = .error .TextgridStateError := by
+  unfold mkITier
+  simp only [map_strip_of_stripped es hs, Option.toList_some, pyMinList_append_single, pyMaxList_append_single]
+  have : ivsAllPos (sortIvs es) = false := by
+    cases h : ivsAllPos (sortIvs es) with
+    | false => rfl
+    | true => exact absurd (pos_perm ((ivsAllPos_iff _).1 h) (sortIvs_perm es)) hp
+  rw [this]
+  rfl
+
+/-- **dejitter, interval tiers.**  On a well-formed tier and a non-empty reference the snapped entries are always in
+time order and no interval is turned around.  If none collapses, the call returns exactly the pointwise snapped
+entries (same count, same order, same labels), as a well-formed tier whose span is the hull of the old span and the
+new entries; if one collapses (`start = end` after snapping) the call raises `TextgridStateError`. -/
+theorem dejitter_spec (t : ITier Int) (hwf : t.WF) (refs : List Int) (hne : refs ≠ []) (md : Int) :
+    Disj (t.es.map (snapIv refs md)) ∧
+    (∀ iv ∈ t.es, (snapIv refs md iv).s ≤ (snapIv refs md iv).e) ∧
+    (Pos (t.es.map (snapIv refs md)) →
+      ∃ t', t.dejitter refs md = .ok t' ∧ t'.WF ∧ t'.name = t.name ∧ t'.es = t.es.map (snapIv refs md) ∧
+        t'.lo = hullMin (t'.es.map (·.s)) t.lo ∧ t'.hi = hullMax (t'.es.map (·.e)) t.hi) ∧
+    (¬ Pos (t.es.map (snapIv refs md)) → t.dejitter refs md = .error .TextgridStateError) := by
+  have hd := snapIv_disj refs md t.es hwf.disj
+  have hs := snapIv_stripped refs md t.es hwf.stripped
+  refine ⟨hd, fun iv hiv => snapIv_le refs md iv (hwf.pos iv hiv), ?_, ?_⟩
+  · intro hp
+    obtain ⟨t', h1, h2, h3, h4, h5, h6⟩ := mkITier_wf t.name _ t.lo t.hi hwf.span hp hd hs
+    refine ⟨t', by rw [dejitter_unfold t refs hne]; exact h1, h2, h4, h3, ?_, ?_⟩
+    · rw [h3]; exact h5
+    · rw [h3]; exact h6
+  · intro hp
+    rw [dejitter_unfold t refs hne]
+    exact mkITier_error_of_not_pos _ _ _ _ hs hp
+
+/-- the failure case is exactly a collapsed interval -/
+theorem dejitter_error_iff_collapse (t : ITier Int) (hwf : t.WF) (refs : List Int) (hne : refs ≠ []) (md : Int) :
+    t.dejitter refs md = .error .TextgridStateError ↔
+      ∃ iv ∈ t.es, snapV refs md iv.s = snapV refs md iv.e := by
+  obtain ⟨_, hle, hok, herr⟩ := dejitter_spec t hwf refs hne md
+  constructor
+  · intro h
+    apply Classical.byContradiction
+    intro hno
+    have hp : Pos (t.es.map (snapIv refs md)) := by
+      intro o ho
+      obtain ⟨iv, hiv, rfl⟩ := List.mem_map.1 ho
+      have h1 := hle iv hiv
+      have h2 : ¬ snapV refs md iv.s = snapV refs md iv.e := fun he => hno ⟨iv, hiv, he⟩
+      simp only [snapIv] at *
+      omega
+    obtain ⟨t', h1, _⟩ := hok hp
+    rw [h1] at h; cases h
+  · rintro ⟨iv, hiv, he⟩
+    apply herr
+    intro hp
+    have := hp _ (List.mem_map_of_mem hiv)
+    simp only [snapIv] at this
+    omega
+
+/-- on success: well-formed, same name, exactly the pointwise snapped entries; hence the same number of entries
+and the same labels in the same order -/
+theorem dejitter_ok (t : ITier Int) (hwf : t.WF) (refs : List Int) (md : Int) (t' : ITier Int)
+    (h : t.dejitter refs md = .ok t') :
+    refs ≠ [] ∧ t'.WF ∧ t'.name = t.name ∧ t'.es = t.es.map (snapIv refs md) ∧
+    t'.es.length = t.es.length ∧ t'.es.map (·.l) = t.es.map (·.l) := by
+  have hne : refs ≠ [] := by rintro rfl; rw [dejitter_empty_ref] at h; cases h
+  obtain ⟨_, _, hok, herr⟩ := dejitter_spec t hwf refs hne md
+  by_cases hp : Pos (t.es.map (snapIv refs md))
+  · obtain ⟨t'', h1, h2, h3, h4, _⟩ := hok hp
+    rw [h] at h1; cases h1
+    refine ⟨hne, h2, h3, h4, by rw [h4, List.length_map], by rw [h4, snapIv_label]⟩
+  · rw [herr hp] at h; cases h
+
+theorem dejitter_ok_wf (t : ITier Int) (hwf : t.WF) (refs : List Int) (md : Int) (t' : ITier Int)
+    (h : t.dejitter refs md = .ok t') : t'.WF := (dejitter_ok t hwf refs md t' h).2.1
+
+/-- a well-formed image is returned as it is -/
+theorem dejitter_ok_of_wf_image (t : ITier Int) (hwf : t.WF) (refs : List Int) (hne : refs ≠ []) (md : Int)
+    (hp : Pos (t.es.map (snapIv refs md))) (_hd : Disj (t.es.map (snapIv refs md))) :
+    ∃ t', t.dejitter refs md = .ok t' ∧ t'.es = t.es.map (snapIv refs md) := by
+  obtain ⟨t', h1, _, _, h4, _⟩ := (dejitter_spec t hwf refs hne md).2.2.1 hp
+  exact ⟨t', h1, h4⟩
+
+/-- every boundary of the result: moved to its nearest reference iff within `md` of it, else untouched -/
+theorem dejitter_pointwise (t : ITier Int) (hwf : t.WF) (refs : List Int) (md : Int) (t' : ITier Int)
+    (h : t.dejitter refs md = .ok t') (i : Nat) (iv iv' : Iv Int) (hi : t.es[i]? = some iv) (hi' : t'.es[i]? = some iv') :
+    snap refs md iv.s = .ok iv'.s ∧ snap refs md iv.e = .ok iv'.e ∧ iv'.l = iv.l := by
+  obtain ⟨hne, _, _, h4, _⟩ := dejitter_ok t hwf refs md t' h
+  rw [h4, List.getElem?_map, hi] at hi'
+  simp only [Option.map_some, Option.some.injEq] at hi'
+  subst hi'
+  exact ⟨snap_eq refs hne md iv.s, snap_eq refs hne md iv.e, rfl⟩
+
+/-! ## dejitter on point tiers -/
+
+theorem Pt.le_trans' (a b c : Pt Int) (h1 : Pt.le a b = true) (h2 : Pt.le b c = true) : Pt.le a c = true := by
+  obtain ⟨at', al⟩ := a; obtain ⟨bt, bl⟩ := b; obtain ⟨ct, cl⟩ := c
+  simp only [Pt.le] at *
+  by_cases h : at' < ct
+  · simp [h]
+  · have : ¬ bt < at' := by intro hb; simp [hb, show ¬ at' < bt by omega] at h1
+    have : ¬ ct < bt := by intro hb; simp [hb, show ¬ bt < ct by omega] at h2
+    have e1 : at' = bt := by omega
+    have e2 : bt = ct := by omega
+    subst e1; subst e2
+    simp only [Int.lt_irrefl, if_false, decide_eq_true_eq] at *
+    exact String.le_trans h1 h2
+
+theorem Pt.le_total' (a b : Pt Int) : (Pt.le a b || Pt.le b a) = true := by
+  obtain ⟨at', al⟩ := a; obtain ⟨bt, bl⟩ := b
+  simp only [Pt.le]
+  by_cases h1 : at' < bt
+  · simp [h1]
+  · by_cases h2 : bt < at'
+    · simp [h1, h2]
+    · simp only [h1, h2, if_false, Bool.or_eq_true, decide_eq_true_eq]
+      exact String.le_total al bl
+
+theorem sortPts_pairwise (ps : List (Pt Int)) : (sortPts ps).Pairwise (fun a b => Pt.le a b = true) :=
+  List.pairwise_mergeSort (fun a b c => Pt.le_trans' a b c) Pt.le_total' ps
+
+theorem sortPts_perm (ps : List (Pt Int)) : (sortPts ps).Perm ps := List.mergeSort_perm ps _
+
+theorem map_strip_pts (ps : List (Pt Int)) (hs : ∀ p ∈ ps, pyStrip p.l = p.l) :
+    ps.map (fun p => { p with l := pyStrip p.l }) = ps := by
+  induction ps with
+  | nil => rfl
+  | cons x xs ih =>
+    have hx := hs x (by simp)
+    simp only [List.map_cons]
+    rw [ih (fun i hi => hs i (List.mem_cons_of_mem _ hi))]
+    congr 1
+    obtain ⟨t, l⟩ := x
+    simp_all
+
+/-- the point-tier constructor on stripped entries in any order: sorts, never fails, spans the hull -/
+theorem mkPTier_any (name : String) (ps : List (Pt Int)) (lo hi : Int)
+    (hs : ∀ p ∈ ps, pyStrip p.l = p.l) :
+    ∃ t, mkPTier name ps (some lo) (some hi) = .ok t ∧ t.WF ∧ t.ps = sortPts ps ∧ t.name = name ∧
+      t.lo = hullMin ((sortPts ps).map (·.t) ++ [lo]) hi ∧ t.hi = hullMax ((sortPts ps).map (·.t) ++ [lo]) hi := by
+  have hmem : ∀ p, p ∈ sortPts ps ↔ p ∈ ps := fun p => (sortPts_perm ps).mem_iff
+  refine ⟨⟨name, sortPts ps, hullMin ((sortPts ps).map (·.t) ++ [lo]) hi,
+    hullMax ((sortPts ps).map (·.t) ++ [lo]) hi⟩, ?_, ?_, rfl, rfl, rfl, rfl⟩
+  · unfold mkPTier
+    simp only [map_strip_pts ps hs, Option.toList_some, pyMinList_append_single, pyMaxList_append_single]
+  · have h1 := hullMin_le ((sortPts ps).map (·.t) ++ [lo]) hi
+    have h2 := hullMax_ge ((sortPts ps).map (·.t) ++ [lo]) hi
+    exact {
+      sorted := sortPts_pairwise ps
+      stripped := fun p hp => hs p ((hmem p).1 hp)
+      inLo := fun p hp => h1.2 _ (by simp only [List.mem_append, List.mem_map]; exact Or.inl ⟨p, hp, rfl⟩)
+      inHi := fun p hp => h2.2 _ (by simp only [List.mem_append, List.mem_map]; exact Or.inl ⟨p, hp, rfl⟩)
+      span := by have := h1.1; have := h2.1; simp only; omega }
+
+def snapPt (refs : List Int) (md : Int) (p : Pt Int) : Pt Int := ⟨snapV refs md p.t, p.l⟩
+
+theorem pdejitter_unfold (t : PTier Int) (refs : List Int) (hne : refs ≠ []) (md : Int) :
+    t.dejitter refs md = mkPTier t.name (t.ps.map (snapPt refs md)) (some t.lo) (some t.hi) := by
+  have he : refs.isEmpty = false := by cases refs <;> simp_all
+  have hm : (t.ps.mapM fun p => do
+      let x ← snap refs md p.t
+      pure (⟨x, p.l⟩ : Pt Int)) = .ok (t.ps.map (snapPt refs md)) := by
+    apply mapM_ok
+    intro p _
+    rw [snap_eq refs hne]; rfl
+  unfold PTier.dejitter
+  rw [hm, he]
+  rfl
+
+/-- **dejitter, point tiers.**  With a non-empty reference the call never fails.  The result is well-formed; its points
+are the pointwise snapped points, re-sorted (points that land on the same timestamp are ordered by label): the count and
+the multiset of labels are preserved, and when the snapped list is already sorted it is returned as it is. -/
+theorem pdejitter_spec (t : PTier Int) (hwf : t.WF) (refs : List Int) (hne : refs ≠ []) (md : Int) :
+    ∃ t', t.dejitter refs md = .ok t' ∧ t'.WF ∧ t'.name = t.name ∧
+      t'.ps = sortPts (t.ps.map (snapPt refs md)) ∧
+      t'.ps.Perm (t.ps.map (snapPt refs md)) ∧
+      t'.ps.length = t.ps.length ∧
+      (t'.ps.map (·.l)).Perm (t.ps.map (·.l)) ∧
+      ((t.ps.map (snapPt refs md)).Pairwise (fun a b => Pt.le a b = true) → t'.ps = t.ps.map (snapPt refs md)) ∧
+      (∀ p' ∈ t'.ps, ∃ p ∈ t.ps, snap refs md p.t = .ok p'.t ∧ p'.l = p.l) := by
+  have hs : ∀ p ∈ t.ps.map (snapPt refs md), pyStrip p.l = p.l := by
+    intro o ho
+    obtain ⟨p, hp, rfl⟩ := List.mem_map.1 ho
+    exact hwf.stripped p hp
+  obtain ⟨t', h1, h2, h3, h4, _, _⟩ := mkPTier_any t.name _ t.lo t.hi hs
+  have hperm : t'.ps.Perm (t.ps.map (snapPt refs md)) := by rw [h3]; exact sortPts_perm _
+  refine ⟨t', by rw [pdejitter_unfold t refs hne]; exact h1, h2, h4, h3, hperm, ?_, ?_, ?_, ?_⟩
+  · rw [hperm.length_eq, List.length_map]
+  · have := hperm.map (·.l)
+    simpa [snapPt, Function.comp_def] using this
+  · intro hsrt; rw [h3]; exact List.mergeSort_of_pairwise hsrt
+  · intro p' hp'
+    obtain ⟨p, hp, rfl⟩ := List.mem_map.1 (hperm.mem_iff.1 hp')
+    exact ⟨p, hp, snap_eq refs hne md p.t, rfl⟩
+
+/-- snapped times of a sorted point list stay in (weak) time order: only ties can be re-ordered -/
+theorem snapPt_times_sorted (t : PTier Int) (hwf : t.WF) (refs : List Int) (md : Int) :
+    (t.ps.map (snapPt refs md)).Pairwise (fun a b => a.t ≤ b.t) := by
+  rw [List.pairwise_map]
+  exact hwf.sorted.imp (fun h => snapV_mono refs md _ _ (Pt.le_time h))
+
+/-! ## morph -/
+
+/-- where the next new interval starts -/
+def newStart (prev : Option (Int × Int)) (src : Iv Int) : Int :=
+  match prev with
+  | none => src.s
+  | some (lastSrcEnd, lastNewEnd) => lastNewEnd + (src.s - lastSrcEnd)
+
+/-- the duration the new interval gets -/
+def morphDur (sel : String → Bool) (src tgt : Iv Int) : Int :=
+  if sel src.l then tgt.e - tgt.s else src.e - src.s
+
+theorem morphGo_cons (sel : String → Bool) (prev : Option (Int × Int)) (src tgt : Iv Int) (ss ts : List (Iv Int)) :
+    morphGo sel prev (src :: ss) (tgt :: ts) =
+      ⟨newStart prev src, newStart prev src + morphDur sel src tgt, src.l⟩ ::
+        morphGo sel (some (src.e, newStart prev src + morphDur sel src tgt)) ss ts := by
+  rcases prev with _ | ⟨a, b⟩ <;> rfl
+
+theorem morphGo_nil_left (sel : String → Bool) (prev : Option (Int × Int)) (ts : List (Iv Int)) :
+    morphGo sel prev [] ts = [] := by
+  unfold morphGo; rfl
+
+theorem morphGo_length (sel : String → Bool) (prev : Option (Int × Int)) (ss ts : List (Iv Int))
+    (hl : ss.length = ts.length) : (morphGo sel prev ss ts).length = ss.length := by
+  induction ss generalizing prev ts with
+  | nil => simp [morphGo_nil_left]
+  | cons src ss ih =>
+    cases ts with
+    | nil => simp at hl
+    | cons tgt ts =>
+      rw [morphGo_cons, List.length_cons, List.length_cons, ih _ ts (by simpa using hl)]
+
+theorem morphGo_labels (sel : String → Bool) (prev : Option (Int × Int)) (ss ts : List (Iv Int))
+    (hl : ss.length = ts.length) : (morphGo sel prev ss ts).map (·.l) = ss.map (·.l) := by
+  induction ss generalizing prev ts with
+  | nil => simp [morphGo_nil_left]
+  | cons src ss ih =>
+    cases ts with
+    | nil => simp at hl
+    | cons tgt ts =>
+      rw [morphGo_cons, List.map_cons, List.map_cons, ih _ ts (by simpa using hl)]
+
+/-- entry `i` of the result: label of source `i`; duration of target `i` if selected, else of source `i` -/
+theorem morphGo_dur (sel : String → Bool) (prev : Option (Int × Int)) (ss ts : List (Iv Int)) (i : Nat)
+    (a b c : Iv Int) (ha : (morphGo sel prev ss ts)[i]? = some a) (hb : ss[i]? = some b) (hc : ts[i]? = some c) :
+    a.l = b.l ∧ a.e - a.s = (if sel b.l then c.e - c.s else b.e - b.s) := by
+  induction ss generalizing prev ts i with
+  | nil => simp at hb
+  | cons src ss ih =>
+    cases ts with
+    | nil => simp at hc
+    | cons tgt ts =>
+      rw [morphGo_cons] at ha
+      cases i with
+      | zero =>
+        simp only [List.getElem?_cons_zero, Option.some.injEq] at ha hb hc
+        subst ha; subst hb; subst hc
+        refine ⟨rfl, ?_⟩
+        simp only [morphDur]
+        omega
+      | succ j =>
+        simp only [List.getElem?_cons_succ] at ha hb hc
+        exact ih _ ts j ha hb hc
+
+/-- the first new interval starts where the first source interval starts (or follows `prev` at the old gap) -/
+theorem morphGo_head (sel : String → Bool) (prev : Option (Int × Int)) (ss ts : List (Iv Int))
+    (a b : Iv Int) (ha : (morphGo sel prev ss ts)[0]? = some a) (hb : ss[0]? = some b) :
+    a.s = newStart prev b := by
+  cases ss with
+  | nil => simp at hb
+  | cons src ss =>
+    cases ts with
+    | nil => simp [morphGo] at ha
+    | cons tgt ts =>
+      rw [morphGo_cons] at ha
+      simp only [List.getElem?_cons_zero, Option.some.injEq] at ha hb
+      subst ha; subst hb; rfl
+
+/-- gaps between consecutive intervals are those of the source -/
+theorem morphGo_gap (sel : String → Bool) (prev : Option (Int × Int)) (ss ts : List (Iv Int)) (i : Nat)
+    (a a' b b' : Iv Int) (ha : (morphGo sel prev ss ts)[i]? = some a) (ha' : (morphGo sel prev ss ts)[i + 1]? = some a')
+    (hb : ss[i]? = some b) (hb' : ss[i + 1]? = some b') : a'.s - a.e = b'.s - b.e := by
+  induction ss generalizing prev ts i with
+  | nil => simp at hb
+  | cons src ss ih =>
+    cases ts with
+    | nil => simp [morphGo] at ha
+    | cons tgt ts =>
+      rw [morphGo_cons] at ha ha'
+      simp only [List.getElem?_cons_succ] at ha' hb'
+      cases i with
+      | zero =>
+        simp only [List.getElem?_cons_zero, Option.some.injEq] at ha hb
+        have h : a'.s = (newStart prev src + morphDur sel src tgt) + (b'.s - src.e) :=
+          morphGo_head sel _ ss ts a' b' ha' hb'
+        subst ha; subst hb
+        simp only; omega
+      | succ j =>
+        simp only [List.getElem?_cons_succ] at ha hb
+        exact ih _ ts j ha ha' hb hb'
+
+/-- **morph, the new entry list.**  Same count; labels equal pointwise; entry `i` has the duration of target `i` when
+its label is selected and its own old duration otherwise; the first start is unchanged; the gap between consecutive
+entries is unchanged. -/
+theorem morph_spec (sel : String → Bool) (t u : ITier Int) (hl : t.es.length = u.es.length) :
+    (morphGo sel none t.es u.es).length = t.es.length ∧
+    (morphGo sel none t.es u.es).map (·.l) = t.es.map (·.l) ∧
+    (∀ (i : Nat) (a b c : Iv Int), (morphGo sel none t.es u.es)[i]? = some a → t.es[i]? = some b → u.es[i]? = some c →
+      a.l = b.l ∧ a.e - a.s = (if sel b.l then c.e - c.s else b.e - b.s)) ∧
+    (∀ (a b : Iv Int), (morphGo sel none t.es u.es)[0]? = some a → t.es[0]? = some b → a.s = b.s) ∧
+    (∀ (i : Nat) (a a' b b' : Iv Int), (morphGo sel none t.es u.es)[i]? = some a → (morphGo sel none t.es u.es)[i + 1]? = some a' →
+      t.es[i]? = some b → t.es[i + 1]? = some b' → a'.s - a.e = b'.s - b.e) :=
+  ⟨morphGo_length sel none _ _ hl, morphGo_labels sel none _ _ hl,
+   fun i a b c => morphGo_dur sel none _ _ i a b c,
+   fun a b ha hb => morphGo_head sel none _ _ a b ha hb,
+   fun i a a' b b' => morphGo_gap sel none _ _ i a a' b b'⟩
+
+/-- the new entries of a well-formed source against positive target durations are well-formed, and none starts
+before the first one -/
+theorem morphGo_wf (sel : String → Bool) (prev : Option (Int × Int)) (ss ts : List (Iv Int))
+    (hl : ss.length = ts.length) (hps : Pos ss) (hds : Disj ss) (hpt : Pos ts) :
+    Pos (morphGo sel prev ss ts) ∧ Disj (morphGo sel prev ss ts) ∧
+    ∀ iv ∈ morphGo sel prev ss ts, ∀ f, ss.head? = some f → newStart prev f ≤ iv.s := by
+  induction ss generalizing prev ts with
+  | nil => simp [morphGo_nil_left, Pos, Disj]
+  | cons src ss ih =>
+    cases ts with
+    | nil => simp at hl
+    | cons tgt ts =>
+      rw [morphGo_cons]
+      obtain ⟨hd1, hd2⟩ := hds.cons
+      have hsrc := hps src (by simp)
+      have htgt := hpt tgt (by simp)
+      have hdur : 0 < morphDur sel src tgt := by simp only [morphDur]; split <;> omega
+      obtain ⟨i1, i2, i3⟩ := ih (some (src.e, newStart prev src + morphDur sel src tgt)) ts
+        (by simpa using hl) (pos_tail hps) hd2 (pos_tail hpt)
+      have hge : ∀ iv ∈ morphGo sel (some (src.e, newStart prev src + morphDur sel src tgt)) ss ts,
+          newStart prev src + morphDur sel src tgt ≤ iv.s := by
+        intro iv hiv
+        cases ss with
+        | nil => simp [morphGo_nil_left] at hiv
+        | cons f ss' =>
+          have h1 : (newStart prev src + morphDur sel src tgt) + (f.s - src.e) ≤ iv.s := i3 iv hiv f rfl
+          have h2 := hd1 f (by simp)
+          omega
+      refine ⟨?_, ?_, ?_⟩
+      · intro iv hiv
+        rcases List.mem_cons.1 hiv with rfl | hiv
+        · simp only; omega
+        · exact i1 iv hiv
+      · exact List.pairwise_cons.2 ⟨fun iv hiv => hge iv hiv, i2⟩
+      · intro iv hiv f hf
+        simp only [List.head?_cons, Option.some.injEq] at hf
+        subst hf
+        rcases List.mem_cons.1 hiv with rfl | hiv
+        · exact Int.le_refl _
+        · have := hge iv hiv; omega
+
+/-- in a positive, time-ordered list nothing ends after the last entry -/
+theorem disj_le_last (es : List (Iv Int)) (hp : Pos es) (hd : Disj es) (g : Iv Int) (hg : es.getLast? = some g) :
+    ∀ iv ∈ es, iv.e ≤ g.e := by
+  obtain ⟨ys, rfl⟩ := List.getLast?_eq_some_iff.1 hg
+  intro iv hiv
+  rcases List.mem_append.1 hiv with h | h
+  · have h1 := (List.pairwise_append.1 hd).2.2 iv h g (by simp)
+    have h2 := hp g (by simp)
+    omega
+  · simp only [List.mem_singleton] at h; subst h; exact Int.le_refl _
+
+theorem morphGo_stripped (sel : String → Bool) (prev : Option (Int × Int)) (ss ts : List (Iv Int))
+    (hl : ss.length = ts.length) (hs : Stripped ss) : Stripped (morphGo sel prev ss ts) := by
+  intro iv hiv
+  have : iv.l ∈ (morphGo sel prev ss ts).map (·.l) := List.mem_map_of_mem hiv
+  rw [morphGo_labels sel prev ss ts hl] at this
+  obtain ⟨src, hsrc, he⟩ := List.mem_map.1 this
+  rw [← he]; exact hs src hsrc
+
+/-- **morph succeeds on well-formed tiers of equal, non-zero length**: the result is well-formed, its entries are the
+re-timed ones of `morph_spec`, name and start of the span are kept, and the gap between the last entry and the end
+of the span is the old one. -/
+theorem morph_ok (sel : String → Bool) (t u : ITier Int) (ht : t.WF) (hu : u.WF)
+    (hl : t.es.length = u.es.length) (hne : t.es ≠ []) :
+    ∃ t' ne oe, t.morph u sel = .ok t' ∧ t'.WF ∧ t'.es = morphGo sel none t.es u.es ∧ t'.name = t.name ∧
+      t'.lo = t.lo ∧ t'.es.getLast? = some ne ∧ t.es.getLast? = some oe ∧ t'.hi - ne.e = t.hi - oe.e := by
+  have hlen := morphGo_length sel none t.es u.es hl
+  obtain ⟨hp, hd, hlow⟩ := morphGo_wf sel none t.es u.es hl ht.pos ht.disj hu.pos
+  have hs := morphGo_stripped sel none t.es u.es hl ht.stripped
+  have hne' : morphGo sel none t.es u.es ≠ [] := by
+    intro h; rw [h] at hlen; exact hne (List.eq_nil_of_length_eq_zero hlen.symm)
+  obtain ⟨ne, hne2⟩ : ∃ ne, (morphGo sel none t.es u.es).getLast? = some ne :=
+    ⟨_, List.getLast?_eq_some_getLast hne'⟩
+  obtain ⟨oe, hoe⟩ : ∃ oe, t.es.getLast? = some oe := ⟨_, List.getLast?_eq_some_getLast hne⟩
+  obtain ⟨f, hf⟩ : ∃ f, t.es.head? = some f := by
+    cases h : t.es with
+    | nil => exact absurd h hne
+    | cons f _ => exact ⟨f, rfl⟩
+  have hfm : f ∈ t.es := List.mem_of_head? hf
+  have hnem : ne ∈ morphGo sel none t.es u.es := List.mem_of_getLast? hne2
+  have hoem : oe ∈ t.es := List.mem_of_getLast? hoe
+  have hlo : ∀ iv ∈ morphGo sel none t.es u.es, t.lo ≤ iv.s := by
+    intro iv hiv
+    have h1 := hlow iv hiv f hf
+    have h2 := ht.inLo f hfm
+    simp only [newStart] at h1
+    omega
+  have hgap : 0 ≤ t.hi - oe.e := by have := ht.inHi oe hoem; omega
+  have hlast := disj_le_last _ hp hd ne hne2
+  have hspan : t.lo ≤ ne.e + (t.hi - oe.e) := by
+    have := hlo ne hnem; have := hp ne hnem; omega
+  obtain ⟨t', h1, h2, h3, h4, h5, h6⟩ :=
+    mkITier_wf t.name (morphGo sel none t.es u.es) t.lo (ne.e + (t.hi - oe.e)) hspan hp hd hs
+  have e5 : t'.lo = t.lo := by
+    rw [h5]; apply hullMin_eq_of_le
+    intro x hx; obtain ⟨iv, hiv, rfl⟩ := List.mem_map.1 hx; exact hlo iv hiv
+  have e6 : t'.hi = ne.e + (t.hi - oe.e) := by
+    rw [h6]; apply hullMax_eq_of_ge
+    intro x hx; obtain ⟨iv, hiv, rfl⟩ := List.mem_map.1 hx
+    have := hlast iv hiv; omega
+  refine ⟨t', ne, oe, ?_, h2, h3, h4, e5, by rw [h3]; exact hne2, hoe, by rw [e6]; omega⟩
+  unfold ITier.morph
+  have hemp : (t.es.isEmpty && u.es.isEmpty) = false := by
+    cases h : t.es with
+    | nil => exact absurd h hne
+    | cons _ _ => rfl
+  simp only [hemp, Bool.false_eq_true, if_false, hl, ne_eq, not_true_eq_false, hne2, hoe]
+  exact h1
+
+/-- **unequal lengths**: `SafeZipException` -/
+theorem morph_mismatch (sel : String → Bool) (t u : ITier Int) (hl : t.es.length ≠ u.es.length) :
+    t.morph u sel = .error .SafeZipException := by
+  unfold ITier.morph
+  have hemp : (t.es.isEmpty && u.es.isEmpty) = false := by
+    cases h1 : t.es with
+    | nil =>
+      cases h2 : u.es with
+      | nil => rw [h1, h2] at hl; exact absurd rfl hl
+      | cons _ _ => rfl
+    | cons _ _ => rfl
+  simp only [hemp, Bool.false_eq_true, if_false, ne_eq, hl, not_false_eq_true, if_true]
+
+/-- **both empty**: a copy -/
+theorem morph_empty (sel : String → Bool) (t u : ITier Int) (h1 : t.es = []) (h2 : u.es = []) :
+    t.morph u sel = t.new := by
+  unfold ITier.morph
+  simp [h1, h2]
+
+/-- the copy of a well-formed tier is the tier -/
+theorem new_of_wf (t : ITier Int) (h : t.WF) : t.new = .ok t := by
+  unfold ITier.new
+  simp only [Option.getD_none]
+  rw [mkITier_of_wf t.name t.es t.lo t.hi h.pos h.disj h.stripped,
+    hullMin_eq_of_le _ _ (by intro x hx; obtain ⟨iv, hiv, rfl⟩ := List.mem_map.1 hx; exact h.inLo iv hiv),
+    hullMax_eq_of_ge _ _ (by intro x hx; obtain ⟨iv, hiv, rfl⟩ := List.mem_map.1 hx; exact h.inHi iv hiv)]
+
+theorem morph_empty_wf (sel : String → Bool) (t u : ITier Int) (ht : t.WF) (h1 : t.es = []) (h2 : u.es = []) :
+    t.morph u sel = .ok t := by
+  rw [morph_empty sel t u h1 h2, new_of_wf t ht]
+
 end C14
